@@ -10,7 +10,7 @@ def _nan(v):
     return isinstance(v, float) and math.isnan(v) or (v != v)
 
 
-def judge(history, pen, tol, ret, delta=0.0):
+def judge(history, pen, tol, ret, delta=0.0, slacks=None):
     """history: list of (f, v) for ALL evaluated points (raw objective value,
     true violation).  ret: the (f, v) pair of the returned point.
     delta: slack on violations (rounding of transformed evaluation).
@@ -18,8 +18,12 @@ def judge(history, pen, tol, ret, delta=0.0):
     Returns (verdict, clause, msg); verdict in 'ok', 'bad', 'ambiguous'."""
     rf, rv = ret
     if delta > 0.0:
-        for f, v in history:
-            if not _nan(v) and abs(v - tol) <= delta:
+        # slacks: per-point rounding slack of the violation (a point whose
+        # violation is computed without any rounding, e.g. an exact zero,
+        # is never knife-edge); without it the global slack is used
+        for j, (f, v) in enumerate(history):
+            d = delta if slacks is None else slacks[j]
+            if not _nan(v) and d > 0.0 and abs(v - tol) <= d:
                 return "ambiguous", "knife-edge", "violation within slack of tol"
     feas_def = [(f, v) for f, v in history
                 if not _nan(v) and v <= tol and not _nan(f)]
